@@ -11,7 +11,13 @@ BOUNDS = {
     "bounded_key_bytes_string_vec": "5 strings, invalid UTF-8, 4 byte vectors",
     "bounded_scan_orphans_exact_and_cleanup": "one store with one instance of each reported category",
     "bounded_cas_path_under_non_utf8_root": "one non-UTF-8 root",
-    "bounded_chunked_write_matches_whole": "14 chunkings, contents up to ~10 MiB, chunk sizes {0,1,7,4095..8193,64Ki,1Mi,4Mi,5Mi}",
+    "bounded_chunked_write_matches_whole": "24 chunkings, contents up to 12 MiB, chunk sizes {0,1,7,4095..8193,64Ki,1Mi,2Mi,4Mi,5Mi,8Mi} incl. round sizes in one call",
+    "bounded_discover_segments_numeric_order": "11 segment ids incl. 9/10, 99/100, u64::MAX in shuffled creation order + 6 non-segment names",
+    "bounded_bulk_delete_reclaims_every_blob": "batches of {1,2,3,5,255,256,257,258,259} distinct blobs",
+    "bounded_overlapping_readers_stream_whole_blob": "one blob of 64 KiB + 123 bytes, three overlapping readers + range reads",
+    "bounded_transactions_are_independent": "abandoned transaction before a put; two interleaved transactions; empty blob",
+    "bounded_reopen_with_undecodable_snapshot_key": "one snapshot with a non-UTF-8 byte-string key reopened with String keys",
+    "bounded_dirlock_held_through_operations": "one store; second open attempted after 6 kinds of activity while a handle is alive",
     "bounded_blob_hash_eq_is_bytewise": "64 random hashes x 32 single-byte difference positions",
 }
 
@@ -21,19 +27,51 @@ def run_bounded(pid, tests, scratch, tier):
     t0 = time.time()
     res = {"unit": "B-bounded", "status": "ok", "failures": [], "undecided": [], "functions": [], "obligations": [], "trusted": [],
            "backend": "cargo test (bounded stand-in, NOT a proof)", "checker_cmd": "", "bounded": [], "wall_s": 0, "smt_ms": 0, "verified": 0, "errors": 0, "rewrites": {}}
-    d = os.path.join(scratch, "bounded-crate")
+    import hashlib, fcntl
     try:
-        subprocess.run(["rsync", "-a", "--exclude", "target", "--exclude", ".git", repo + "/", d + "/"], check=True)
-        shutil.copy(os.path.join(ROOT, "contracts/bounded/verif_bounded.rs"), os.path.join(d, "src/verif_bounded.rs"))
-        with open(os.path.join(d, "src/lib.rs"), "a") as f:
-            f.write("\n#[cfg(test)]\nmod verif_bounded;\n")
-        with open(os.path.join(d, "src/index/mod.rs"), "a") as f:
-            f.write("\n#[cfg(test)]\npub(crate) use self::state::IndexState as IndexStateForWitness;\n")
+        # the scratch copy is keyed by the content of the tree + the stand-in module, so that the checks of several
+        # properties on the same tree share one build (nothing is reused across different trees)
+        hsh = hashlib.sha256()
+        files = []
+        for base, rel in ((repo, "src"), (repo, "Cargo.toml"), (repo, "Cargo.lock"), (ROOT, "contracts/bounded/verif_bounded.rs"), (ROOT, "tools/bounded_run.py")):
+            pth = os.path.join(base, rel)
+            if os.path.isdir(pth):
+                for dp, dn, fn in os.walk(pth):
+                    dn.sort()
+                    for f in sorted(fn):
+                        files.append(os.path.join(dp, f))
+            elif os.path.exists(pth):
+                files.append(pth)
+        for f in files:
+            hsh.update(os.path.relpath(f, "/").encode()); hsh.update(b"\0"); hsh.update(open(f, "rb").read())
+        key = hsh.hexdigest()[:20]
+        broot = os.environ.get("VERIF_BOUNDED_ROOT", "/var/tmp/verif-bounded")
+        os.makedirs(broot, exist_ok=True)
+        d = os.path.join(broot, key, "crate")
+        lockf = open(os.path.join(broot, "lock"), "w")
+        fcntl.flock(lockf, fcntl.LOCK_EX)
+        if not os.path.exists(os.path.join(d, ".ready")):
+            shutil.rmtree(os.path.join(broot, key), ignore_errors=True)
+            os.makedirs(d)
+            subprocess.run(["rsync", "-a", "--exclude", "target", "--exclude", ".git", repo + "/", d + "/"], check=True)
+            shutil.copy(os.path.join(ROOT, "contracts/bounded/verif_bounded.rs"), os.path.join(d, "src/verif_bounded.rs"))
+            with open(os.path.join(d, "src/lib.rs"), "a") as f:
+                f.write("\n#[cfg(test)]\nmod verif_bounded;\n")
+            with open(os.path.join(d, "src/index/mod.rs"), "a") as f:
+                f.write("\n#[cfg(test)]\npub(crate) use self::state::IndexState as IndexStateForWitness;\n")
+            with open(os.path.join(d, "src/wal/mod.rs"), "a") as f:
+                f.write("\n#[cfg(test)]\npub(crate) fn storage_for_verif(p: crate::paths::DbPaths) -> self::storage::SegmentStorage { self::storage::SegmentStorage::new(p) }\n")
+            open(os.path.join(d, ".ready"), "w").write("ok")
+            # keep the three most recent copies
+            olds = sorted([x for x in os.listdir(broot) if os.path.isdir(os.path.join(broot, x))], key=lambda x: os.path.getmtime(os.path.join(broot, x)))
+            for x in olds[:-3]:
+                shutil.rmtree(os.path.join(broot, x), ignore_errors=True)
         env = dict(os.environ, CARGO_NET_OFFLINE="true", CARGO_TARGET_DIR=os.environ.get("VERIF_BOUNDED_TARGET", "/var/tmp/verif-bounded-target"))
-        cmd = ["cargo", "test", "--offline", "--lib", "verif_bounded::", "--", "--test-threads", "8"] + []
-        res["checker_cmd"] = "CARGO_NET_OFFLINE=true cargo test --offline --lib verif_bounded::   (scratch copy of the tree + contracts/bounded/verif_bounded.rs)"
+        cmd = ["cargo", "test", "--offline", "--lib", "--"] + ["verif_bounded::" + t for t in tests] + ["--exact", "--test-threads", "8"]
+        res["checker_cmd"] = "CARGO_NET_OFFLINE=true cargo test --offline --lib -- " + " ".join("verif_bounded::" + t for t in tests) + " --exact   (scratch copy of the current tree + contracts/bounded/verif_bounded.rs appended as a test module)"
         p = subprocess.run(cmd, cwd=d, env=env, capture_output=True, text=True, timeout=int(os.environ.get("VERIF_BOUNDED_TIMEOUT", "1500")))
         out = p.stdout + "\n" + p.stderr
+        fcntl.flock(lockf, fcntl.LOCK_UN)
         if "test result" not in out:
             res["undecided"].append("bounded stand-ins did not build/run: " + out[-600:].replace("\n", " | "))
         else:
